@@ -41,7 +41,8 @@ def main(tier, replay=None):
         i, o = fmts.split("->")
         ref = E.clobber_reference(root, cfg, i, o, 1 if lg == "log" else 0)
         traces = [E.clobber_case({"tid": 1, "ref": ref, "root": root, "cfg": cfg, "in_fmt": i, "out_fmt": o, "log": 1 if lg == "log" else 0,
-                                  "pre": tr["pre"], "clobber": tr["clobber"], "empty": 1 if "empty-files" in tr["cfg"] else 0, "rerun": 1 if "after-an-earlier-run" in tr["cfg"] else 0})]
+                                  "pre": tr["pre"], "clobber": tr["clobber"], "empty": 1 if "empty-files" in tr["cfg"] else 0, "rerun": 1 if "after-an-earlier-run" in tr["cfg"] else 0,
+                                  "same": 1 if "same-content" in tr["cfg"] else 0})]
         jr = C.judge("ClobberTrace", traces, run.dir, consts="N = 1 MaxPre = 1", spec="TraceSpec")
         C.finish(run, "C16", C.report(run, "C16", jr["V"], {1: traces[0]}))
     for k, (cfg, i, o, lg) in enumerate(plan["cfgs"]):
@@ -54,6 +55,9 @@ def main(tier, replay=None):
             scen.append({"ref": ref, "root": root, "cfg": cfg, "in_fmt": i, "out_fmt": o, "log": lg, "pre": ob["pre"], "clobber": ob["clobber"]})
             if ob["pre"] and (len(ob["pre"]) == 1 or tier == "thorough"):
                 scen.append({"ref": ref, "root": root, "cfg": cfg, "in_fmt": i, "out_fmt": o, "log": lg, "pre": ob["pre"], "clobber": ob["clobber"], "empty": 1})
+            # ... and pre-existing files that already hold exactly what the run would write (left by an earlier, identical run)
+            if ob["pre"] and (len(ob["pre"]) <= 2 or tier == "thorough"):
+                scen.append({"ref": ref, "root": root, "cfg": cfg, "in_fmt": i, "out_fmt": o, "log": lg, "pre": ob["pre"], "clobber": ob["clobber"], "same": 1})
         # histories: the same command run twice in one process into the same directory
         for cl in (0, 1):
             scen.append({"ref": ref, "root": root, "cfg": cfg, "in_fmt": i, "out_fmt": o, "log": lg, "pre": list(range(1, n + 1)), "clobber": cl, "rerun": 1})
@@ -77,7 +81,7 @@ def main(tier, replay=None):
         "rule": "for each CLI configuration (single / multi-assembly / two-haplotype output x input and output format x log on/off) the output set is "
                 "taken from a reference run into an empty directory; TLC (Clobber.tla) enumerates the subsets of pre-existing outputs "
                 + ("(all 2^n)" if plan["maxpre"] >= 99 else f"(size <= {plan['maxpre']} and the full set)") + " x clobber on/off; each is executed "
-                "by the real pretext-to-asm CLI in a fresh directory whose pre-existing files hold 80 kB of junk (single pre-existing files also as zero-length files); non-trivial = non-empty subset",
+                "by the real pretext-to-asm CLI in a fresh directory whose pre-existing files hold 80 kB of junk (single pre-existing files also as zero-length files; one or two pre-existing files also with exactly the content the run would write); non-trivial = non-empty subset",
         "unbounded_proof_of_the_design": proof, "configurations": mcs, "runs_by_mode_and_exit": exits, "model_drift": len(jr["M"]), "model_conformant": len(jr["M"]) == 0,
         "samples": [traces[1], traces[len(traces) // 2]], "known_findings_seen": run.known,
     }
